@@ -112,5 +112,11 @@ func (fs *FileSystem) Retrieve(id string, _ *RetrieveOptions) (*sbom.Document, e
 		return nil, fmt.Errorf("unmarshaling protobom data: %w", err)
 	}
 
+	// An empty or foreign file decodes without error: make sure the entry
+	// really holds the requested document.
+	if bom.GetMetadata().GetId() != id {
+		return nil, fmt.Errorf("stored entry does not contain document %q", id)
+	}
+
 	return bom, nil
 }
